@@ -316,6 +316,26 @@ func farFuture(rng *rand.Rand) time.Duration {
 
 var badTimestamps = []string{"yesterday", "2024-13-45T99:99:99Z", "1700000000", "2030-01-01", "2030-01-01T00:00:00", "2030-01-01T00:00:00+01:00", "2030-01-01 00:00:00Z", "01/02/2030", " ", "2030-01-01T00:00:00ZZ", "20300101T000000Z"}
 
+// nameRegisteredElsewhere: while the Issuer names nobody (or a stranger), the registered service provider is named in
+// other places of the request (ProviderName, qualifiers of the name identifier policy / subject, the Issuer's own
+// qualifier attributes) - none of them says who sent the request.
+func nameRegisteredElsewhere(rng *rand.Rand, c *ssoCase) {
+	if rng.Intn(2) == 0 {
+		return
+	}
+	id := c.SPD.EntityID
+	c.Node.Set("ProviderName", id)
+	if n := c.Node.Find("NameIDPolicy"); n != nil {
+		n.Set("SPNameQualifier", id)
+	}
+	if n := c.Node.Find("NameID"); n != nil {
+		n.Set("SPNameQualifier", id).Set("NameQualifier", id)
+	}
+	if n := c.Node.Find("Issuer"); n != nil {
+		n.Set("SPNameQualifier", id).Set("NameQualifier", id)
+	}
+}
+
 var c06Deviations = []deviation{
 	{"issuer_absent", func(rng *rand.Rand, c *ssoCase) {
 		n := issuerNode(c)
@@ -325,16 +345,19 @@ var c06Deviations = []deviation{
 				break
 			}
 		}
+		nameRegisteredElsewhere(rng, c)
 	}},
 	{"issuer_empty", func(rng *rand.Rand, c *ssoCase) {
 		if n := issuerNode(c); n != nil {
 			n.Text = ""
 		}
+		nameRegisteredElsewhere(rng, c)
 	}},
 	{"issuer_unregistered", func(rng *rand.Rand, c *ssoCase) {
 		if n := issuerNode(c); n != nil {
 			n.Text = "https://unregistered-" + randHex(rng, 4) + ".example/metadata"
 		}
+		nameRegisteredElsewhere(rng, c)
 	}},
 	{"issuer_other_registered_as_lookalike", func(rng *rand.Rand, c *ssoCase) {
 		// the storage resolves look-alike identifiers (case, blanks, trailing slash) to the registered SP
